@@ -83,7 +83,12 @@ pub fn gen_name(rng: &mut Rng, allow_slash_end: bool) -> String {
         2 => "app/instance".to_string(),
         3 => "é中😀 space".to_string(),
         4 if allow_slash_end => "live/".to_string(),
-        5 => "x".repeat(rng.usize(1, 300)),
+        5 => {
+            // up to 300 bytes, ASCII or multi-byte characters behind 0-3 ASCII ones (so that every
+            // byte offset falls inside a character in some name)
+            let unit = *rng.pick(&["x", "x", "\u{e9}", "\u{4e2d}", "\u{1f600}"]);
+            format!("{}{}", "a".repeat(rng.usize(0, 3)), unit.repeat(rng.usize(1, 300 / unit.len())))
+        }
         6 => "stream?token=abc&x=1".to_string(),
         _ => format!("k{}", rng.below(100000)),
     }
